@@ -1,7 +1,7 @@
 """C10 - chain verification accepts exactly the chains a reference path validator accepts (x509.Verify)."""
 ID = "C10"
 PROPS = "Props/C10.v"
-GEN = ["x509verify"]
+GEN = ["x509verify", "x509tables"]
 LEGS = [
     {"driver": "c10", "runner": ("x509", "Extract/ExtractX509.v", "X509_model")},
     {"driver": "c10w", "runner": ("x509", "Extract/ExtractX509.v", "X509_model"), "tags": "verif"},
@@ -16,6 +16,8 @@ LEVEL_TEXT = ("Theorems in Coq (Props/C10.v), for all byte strings / chains / po
               "certSign, path length, DNS constraints, host name, EKU, no critical extension on the leaf, pool certificates only, leaf first, "
               "root last, no repetition); verify_complete: if a valid_chain exists (with the fail-closed extras, well-formed key ids, search within "
               "the 100-signature-check budget) Verify_model returns a non-empty list; buildChains_terminates with fuel |intermediates|+1. "
+              "verify_sound_rfc / verify_complete_rfc for the RFC 5280 reading of path length (self-issued intermediates not counted; "
+              "premise: none on the chain); name_constraints_critical_unhandled_rejected / _noncritical_others_dropped over the byte-level parser. "
               "Witness theorems show that each premise of completeness is needed (budget - also inside 3 roots/4 intermediates -, key ids, extras). "
               "The extracted model is run on the abstract description of ~300 (quick) / ~5000 (thorough) library-built PKIs x 6 queries and its "
               "ok/error class and SET of chains compared with the real Verify; the returned chains are checked against a python transcription of "
@@ -23,7 +25,8 @@ LEVEL_TEXT = ("Theorems in Coq (Props/C10.v), for all byte strings / chains / po
 LEVEL_NOTE = ("Proved relative to premises stated in the theorems: sig_ok is an abstract relation (the harness computes it with CheckSignature on "
               "real SM2 signatures); net.ParseIP is a function supplied by the driver (contract: 16 bytes or nil); strings.EqualFold is modelled "
               "as ASCII folding (exact for ASCII constraints, which IA5String guarantees). Readings chosen where the text is silent (PathSpec.v): "
-              "path length counts every intermediate (no self-issued exemption); DNS constraints are applied to the requested host name; EKU of "
+              "path length counts every intermediate (valid_chain; the RFC reading valid_chain_rfc exempts self-issued ones: sound for both, "
+              "complete for the RFC reading only without self-issued intermediates - witness C10_self_issued_intermediates_are_counted, corpus case); DNS constraints are applied to the requested host name; EKU of "
               "issuers, constraints with an empty DNSName and the leaf's own permitted subtrees are fail-closed extras (proved in soundness, "
               "assumed in completeness). Completeness additionally assumes aki=ski on the chain and <= 100 signature checks (the constant is read "
               "from verify.go; implied by budget_bound(|roots|+|inters|, |inters|) <= 100, theorem verify_complete_small_pools); the budget "
@@ -42,7 +45,7 @@ ASSUMPTIONS = [
     "sig_ok child parent = (parent.CheckSignature(child.SignatureAlgorithm, child.RawTBSCertificate, child.Signature) == nil), computed by the driver",
     "net.ParseIP by contract (the driver passes its answers for the host and for the bracket-stripped host)",
     "strings.EqualFold = ASCII case folding on strings of equal byte length when the constraint is ASCII",
-    "completeness is demanded (predicate) exactly when some chain is valid in the sense of the text AND satisfies the fail-closed extras (issuer EKU, raw DNSName constraints) AND has well-formed key identifiers (every AuthorityKeyId on the chain equals the issuer's SubjectKeyId, or is absent - RFC 5280 4.2.1.1); chains that are valid only through a malformed key id (the driver plants them in ~3% of PKIs and the D26 topology has one) are outside the premise and only counted (classify: text-valid-chain-rejected-by-premise)",
+    "completeness is demanded (predicate) exactly when some chain is valid in the sense of the text AND satisfies the fail-closed extras (issuer EKU, raw DNSName constraints) AND whose links can be found by key identifier (every AuthorityKeyId on the chain equals the issuer's SubjectKeyId - RFC 5280 4.2.1.1 -, or is absent, or is carried by no certificate of the issuer's pool, so that the search falls back to the issuer name: exactly the condition under which findVerifiedParents tries the issuer, PathSpec.keyid_link_ok); chains that are valid only through a misleading key id (the driver plants them in ~3% of PKIs and the D26 topology has one) are outside the premise and only counted (classify: text-valid-chain-rejected-by-premise)",
     "the 100-signature-check budget is NOT waived: a valid chain missed because of it fails the predicate and is the known finding verify-sigcheck-budget",
     "soundness: roots are v3 certificates, no certificate carries the Entrust SPKI blob, identity index is injective on roots vs leaf",
 ]
@@ -249,8 +252,17 @@ def strict_extras(q, chain):
     return eku_ok(chain, q.usages) and all(raw_dns_ok(q, c) for c in chain)
 
 
-def keyids_wf(chain):
-    return all((not c.aki) or p.ski == c.aki for c, p in zip(chain, chain[1:]))
+def keyids_wf(q, chain):
+    """every link can be found by a search that selects candidates by key identifier first: the child has no
+    AuthorityKeyId, or the issuer's SubjectKeyId equals it, or no certificate of the issuer's pool carries it"""
+    ups = chain[1:]
+    for k, (c, p) in enumerate(zip(chain, ups)):
+        if not c.aki or p.ski == c.aki:
+            continue
+        pool = q.roots if k == len(ups) - 1 else q.inters
+        if any(x.ski == c.aki for x in pool):
+            return False
+    return True
 
 
 def enumerate_chains(q):
@@ -303,7 +315,7 @@ def analyse(f):
         q = parse_v(f)
         chains = enumerate_chains(q)
         text_valid = [ch for ch in chains if why_invalid(q, ch) is None]
-        good = [ch for ch in text_valid if strict_extras(q, ch) and keyids_wf(ch)]
+        good = [ch for ch in text_valid if strict_extras(q, ch) and keyids_wf(q, ch)]
         r = (q, text_valid, good, search_bound(q))
         if len(_cache) > 20000:
             _cache.clear()
@@ -333,7 +345,8 @@ def classify(f, io):
     if good:
         return "V:err:%s:valid-chain-missed(search-bound %s)" % (tag, ">100" if bound > 100 else "<=100")
     if text_valid and not good:
-        return "V:err:%s:text-valid-chain-rejected-by-premise(extras/keyids)" % tag
+        why = "keyids" if any(strict_extras(q, ch) for ch in text_valid) else "extras"
+        return "V:err:%s:text-valid-chain-outside-premise(%s)" % (tag, why)
     return "V:err:" + tag
 
 
